@@ -177,12 +177,16 @@ func libRecover(digest []byte, vB byte, r, s *big.Int) []byte {
 	return addrOf(pub)
 }
 
-// libVerifies: is there a public key with this address for which (r,s) verifies over digest?
-func libVerifies(digest []byte, r, s *big.Int, addr []byte) bool {
+// libVerifies: is there a public key with this address for which (r,s) verifies over digest — recovered
+// with the given normalised V (27/28), or with either when want is 0?
+func libVerifies(digest []byte, r, s *big.Int, addr []byte, want int) bool {
 	if r.BitLen() > 256 || s.BitLen() > 256 {
 		return false
 	}
 	for _, vB := range []byte{27, 28} {
+		if want != 0 && int(vB) != want {
+			continue
+		}
 		sig := make([]byte, 65)
 		sig[0] = vB
 		r.FillBytes(sig[1:33])
@@ -200,6 +204,34 @@ func libVerifies(digest []byte, r, s *big.Int, addr []byte) bool {
 		}
 	}
 	return false
+}
+
+// expectedVB: the recovery id (as 27/28) that the V written in the input denotes: a plain y-parity for
+// type 0x02 (0 = V is something else, left to property C05), 27/28 or 35+2*chain+parity for legacy
+// (taken modulo 2^64, the implementation's Int64() conversion); -1 = a legacy V that denotes nothing
+func expectedVB(typed bool, l []*elem, chain int64) int {
+	if typed {
+		v := elemInt(l, 9)
+		if !l[9].list && v.IsInt64() && (v.Int64() == 0 || v.Int64() == 1) {
+			return 27 + int(v.Int64())
+		}
+		return 0
+	}
+	if l[6].list {
+		return -1
+	}
+	two64 := new(big.Int).Lsh(big.NewInt(1), 64)
+	v := new(big.Int).Mod(elemInt(l, 6), two64)
+	if v.Cmp(big.NewInt(27)) == 0 || v.Cmp(big.NewInt(28)) == 0 {
+		return int(v.Int64())
+	}
+	w := new(big.Int).Sub(v, big.NewInt(35))
+	w.Sub(w, new(big.Int).Mul(big.NewInt(chain), big.NewInt(2)))
+	w.Mod(w, two64)
+	if w.Cmp(big.NewInt(0)) == 0 || w.Cmp(big.NewInt(1)) == 0 {
+		return 27 + int(w.Int64())
+	}
+	return -1
 }
 
 // ---------- running the implementation ----------
@@ -372,8 +404,12 @@ func (g *gen) add(kind string, entry int, in cv.DSL, chain int64) outcome {
 			if typed {
 				ri = 10
 			}
-			if !libVerifies(keccak(o.payload), elemInt(l, ri), elemInt(l, ri+1), o.addr) {
-				g.st.ImplFailures = append(g.st.ImplFailures, map[string]interface{}{"what": "the signature in the input does not verify over keccak256(returned payload) for the returned address",
+			want := expectedVB(typed, l, chain)
+			if want < 0 {
+				g.st.ImplFailures = append(g.st.ImplFailures, map[string]interface{}{"what": "a legacy transaction whose V is neither 27/28 nor 35+2*chain+parity was accepted",
+					"input": in.Describe(), "chain": chain, "entry": entry})
+			} else if !libVerifies(keccak(o.payload), elemInt(l, ri), elemInt(l, ri+1), o.addr, want) {
+				g.st.ImplFailures = append(g.st.ImplFailures, map[string]interface{}{"what": "the signature in the input (r, s, recovery id denoted by V) does not verify over keccak256(returned payload) for the returned address",
 					"input": in.Describe(), "chain": chain, "entry": entry, "address": hex.EncodeToString(o.addr), "payload": hex.EncodeToString(o.payload)})
 			}
 		}
@@ -926,7 +962,7 @@ func main() {
 	fs := fieldSets(r)
 	nRand := 6
 	if thorough {
-		nRand = 120
+		nRand = 40
 	}
 	for i := 0; i < nRand; i++ {
 		fs = append(fs, randTx(r))
@@ -961,8 +997,8 @@ func main() {
 	isFull := func(i int) bool { return i%4 == (i/4)%4 && i < 16 }
 	nLight := 10
 	if thorough {
-		isFull = func(i int) bool { return i < 40 }
-		nLight = len(bases)
+		isFull = func(i int) bool { return i < 24 }
+		nLight = 60
 	}
 	light := 0
 	for i, b := range bases {
